@@ -3,6 +3,7 @@ from __future__ import annotations
 
 import concurrent.futures as cf
 import dataclasses as dc
+import heapq
 import itertools
 import threading
 import time as _real_time
@@ -55,6 +56,10 @@ class World:
   def __init__(self):
     self.lock = threading.RLock()
     self._ports = itertools.count(20000)
+    self._watch_cv = threading.Condition()
+    self._watch_heap: list = []
+    self._watch_seq = itertools.count()
+    self._watch_thread: threading.Thread | None = None
     self.reset()
 
   # ---------------------------------------------------------------- configuration
@@ -126,7 +131,33 @@ class World:
     assert fate in FATES, fate
     return i, fate
 
-  def submit(self, address: str, method: str, args, kwargs) -> cf.Future:
+  def _watch(self, fut: cf.Future, timeout: float):
+    """threaded mode only: enforce a client's `call_timeout` in real time (one daemon thread)."""
+    with self._watch_cv:
+      heapq.heappush(self._watch_heap, (_real_time.monotonic() + timeout, next(self._watch_seq), fut))
+      if self._watch_thread is None or not self._watch_thread.is_alive():
+        self._watch_thread = threading.Thread(target=self._watch_loop, daemon=True, name='fakecourier-deadline')
+        self._watch_thread.start()
+      self._watch_cv.notify()
+
+  def _watch_loop(self):
+    while True:
+      with self._watch_cv:
+        while not self._watch_heap:
+          self._watch_cv.wait()
+        due, _, fut = self._watch_heap[0]
+        wait = due - _real_time.monotonic()
+        if wait > 0:
+          self._watch_cv.wait(wait)
+          continue
+        heapq.heappop(self._watch_heap)
+      if not fut.done():
+        try:
+          fut.set_exception(StatusNotOk(DEADLINE_EXCEEDED, 'Deadline Exceeded'))
+        except cf.InvalidStateError:
+          pass
+
+  def submit(self, address: str, method: str, args, kwargs, timeout: float | None = None) -> cf.Future:
     fut: cf.Future = cf.Future()
     with self.lock:
       index, fate = self._fate(address, method)
@@ -142,6 +173,8 @@ class World:
     if mode == 'inline':
       self._execute(call)
     elif mode == 'threaded':
+      if timeout:
+        self._watch(fut, timeout)
       self.executor.submit(self._execute, call)
     return fut
 
@@ -278,7 +311,7 @@ class _Futures:
     if method.startswith('__'):
       raise AttributeError(method)
     client = self._client
-    return lambda *args, **kwargs: WORLD.submit(client.address, method, args, kwargs)
+    return lambda *args, **kwargs: WORLD.submit(client.address, method, args, kwargs, client.timeout_secs)
 
 
 class Client:
@@ -287,12 +320,14 @@ class Client:
   def __init__(self, server_address: str, *, call_timeout=None, **_unused):
     self.address = server_address
     self.call_timeout = call_timeout
+    self.timeout_secs = (call_timeout.total_seconds() if hasattr(call_timeout, 'total_seconds')
+                         else (float(call_timeout) if call_timeout else None))
     self.futures = _Futures(self)
 
   def __getattr__(self, method: str):
     if method.startswith('__'):
       raise AttributeError(method)
-    return lambda *args, **kwargs: WORLD.submit(self.address, method, args, kwargs).result()
+    return lambda *args, **kwargs: WORLD.submit(self.address, method, args, kwargs, self.timeout_secs).result()
 
 
 class VirtualClock:
@@ -300,18 +335,40 @@ class VirtualClock:
 
   `sleep(dt)` advances the virtual time by max(dt, spin_tick) and yields the GIL (so spin loops such
   as `while not fut.done(): time.sleep(0)` make progress and `wait_until_alive` deadlines expire).
+
+  `deadline`: when set, `sleep()` raises TimeoutError once the virtual time has passed it — every spin
+  loop of the repo sleeps, so a loop that would spin for ever (e.g. `as_completed` when no worker can be
+  obtained) ends with an exception instead of hanging the check.
+
+  `strict_other_threads=True`: threads other than the one that created the clock read
+  `now + k * 1e-6` (k = number of their reads so far), i.e. a strictly increasing clock.  Background
+  threads of the repo (CourierServer.run_until_shutdown) divide by elapsed time and die with
+  ZeroDivisionError on a clock that stands still; the owner thread — the one whose reads are
+  compared with a model — always sees the exact virtual time.
   """
 
-  def __init__(self, start: float = 1_000_000.0, spin_tick: float = 0.0):
+  def __init__(self, start: float = 1_000_000.0, spin_tick: float = 0.0,
+               strict_other_threads: bool = False):
     self.now = float(start)
     self.spin_tick = spin_tick
     self._lock = threading.Lock()
+    self._owner = threading.get_ident()
+    self._strict = strict_other_threads
+    self._reads = 0
+    self.deadline: float | None = None
 
   def time(self) -> float:
+    if self._strict and threading.get_ident() != self._owner:
+      with self._lock:
+        self._reads += 1
+        return self.now + self._reads * 1e-6
     return self.now
 
-  monotonic = time
-  perf_counter = time
+  def monotonic(self) -> float:
+    return self.time()
+
+  def perf_counter(self) -> float:
+    return self.time()
 
   def advance(self, dt: float):
     with self._lock:
@@ -319,6 +376,8 @@ class VirtualClock:
 
   def sleep(self, dt: float = 0.0):
     self.advance(max(dt, self.spin_tick))
+    if self.deadline is not None and self.now > self.deadline and threading.get_ident() == self._owner:
+      raise TimeoutError(f'virtual deadline {self.deadline} exceeded (spin loop without progress)')
     _real_time.sleep(0)
 
   def __getattr__(self, name):   # anything else (strftime, ...) from the real module
